@@ -131,7 +131,7 @@ def shift_spelling(rng):
     """(text, fn) for a shift whose meaning README/tests fix"""
     r = rng.random()
     if r < 0.35:
-        n = rng.choice([1, 2, 3, 7, 10, 28, 30, 31, 59, 100, 200, 365, 366]) * rng.choice([1, -1])
+        n = rng.choice([1, 2, 3, 7, 10, 28, 29, 30, 31, 59, 60, 61, 90, 91, 92, 100, 120, 121, 122, 123, 200, 365, 366]) * rng.choice([1, -1])
         if rng.random() < 0.2:
             n = rng.randint(-366, 366)
         return "%d" % n, (lambda d, n=n: d + D.timedelta(days=n)), "day"
@@ -169,6 +169,9 @@ def shift_case(srv, part, rng):
     base, bk = base_rule(rng)
     stext, fn, sk = shift_spelling(rng)
     dtstart = D.date(rng.randint(1950, 2060), rng.randint(1, 12), rng.randint(1, 28))
+    if rng.random() < 0.3:
+        # the first days of a month (March above all): where dates moved across the shortest month arrive
+        dtstart = D.date(rng.randint(1950, 2060), rng.choice([3, 3, 3, 1, 5, 12, rng.randint(1, 12)]), rng.choice([1, 1, 2, 3]))
     lim = ""
     count = None
     until = None
